@@ -163,7 +163,8 @@ func init() {
 							continue
 						}
 						if l, ok := nameNeq(atom); ok && l != "" {
-							if rule == 0 {
+							// several name tests compose: an event must pass all of them
+							if rule == 0 || (rule <= 2 && lit == l) {
 								rule, lit = 2, l
 							} else {
 								rule = 3
@@ -176,7 +177,7 @@ func init() {
 							if ok1 && ok2 && ((l1 == "" && l2 != "") || (l2 == "" && l1 != "")) {
 								if rule == 0 {
 									rule, lit = 1, l1+l2
-								} else {
+								} else if rule > 2 || lit != l1+l2 {
 									rule = 3
 								}
 								continue
